@@ -1025,7 +1025,14 @@ func checkMetricCase(c *MetricCase, o *pt.Obs) error {
 			if perPoint[promName(base)] == nil {
 				perPoint[promName(base)] = map[string]string{}
 			}
-			perPoint[promName(base)][x.Proto] = s.Points[0][0] + " " + s.Points[0][1]
+			vtxt := s.Points[0][1]
+			if x.Value == 0 {
+				// The Prometheus remote-write message (prompb, proto3) omits a sample value that
+				// equals zero, so the sign of -0 is not carried by that protocol at all: a zero is
+				// compared across protocols without its sign.
+				vtxt = "0"
+			}
+			perPoint[promName(base)][x.Proto] = s.Points[0][0] + " " + vtxt
 		}
 		// cross-protocol: same sample ⇒ same stored (second, value)
 		for _, name := range pt.SortedKeys(perPoint) {
